@@ -147,6 +147,8 @@ def enumerate_terms(N, leaves, ops):
                     m2 = m | mask[a]
                     if m2.bit_count() > k - 1:
                         continue
+                    if name == "Cond" and pos == 2 and a == kids[1]:
+                        continue  # Conditional(c, x, x) is simplified to x by the constructor
                     kids.append(a)
                     rec(name, argsorts, pos + 1, kids, m2, res)
                     kids.pop()
@@ -204,7 +206,7 @@ def build(t, shared, memo):
     else:
         kids = [build(k, shared, memo) for k in t[1:]]
         o = OP_CLASS[op](*kids)
-        if type(o) is not OP_CLASS[op] or len(o.ufl_operands) != len(kids):
+        if type(o) is not OP_CLASS[op] or len(o.ufl_operands) != len(kids) or any(a is not b for a, b in zip(o.ufl_operands, kids)):
             raise Simplified(op)
     if t in shared:
         memo[t] = o
@@ -282,27 +284,6 @@ def ref_distinct(e, cutf=None, acc=None):
         for c in e.ufl_operands:
             ref_distinct(c, cutf, acc)
     acc[s] = e
-    return acc
-
-
-def ref_tree_ids(e, cutf=None, acc=None):
-    """Counter of id(obj) over tree occurrences (no descent below cut nodes)."""
-    if acc is None:
-        acc = Counter()
-    acc[id(e)] += 1
-    if not (cutf and cutf(e)):
-        for c in e.ufl_operands:
-            ref_tree_ids(c, cutf, acc)
-    return acc
-
-
-def ref_tree_sids(e, cutf=None, acc=None):
-    if acc is None:
-        acc = Counter()
-    acc[sid(e)] += 1
-    if not (cutf and cutf(e)):
-        for c in e.ufl_operands:
-            ref_tree_sids(c, cutf, acc)
     return acc
 
 
@@ -1161,11 +1142,6 @@ def dt_families(e):
     return fams
 
 
-def ref_dt_eff(ref, e, acc=None):
-    """Distinct nodes the reference recursion touches (depends on only_children / cut)."""
-    return {k[0] for k in ref.calls}
-
-
 def part_b_dt(cx, mk, pairs):
     e = mk()
     for famkey, regs in dt_families(e):
@@ -1237,7 +1213,12 @@ def part_b_dt(cx, mk, pairs):
 
 SUBSET_MAX_N = 5
 FOUR_MODES_MAX_N = [5]  # above SUBSET_MAX_N: 4 sharing modes up to this size, 2 modes (all/none) beyond
-PAIRS_MAX_N = [5]  # two-root checks for DAGs up to this many nodes (quick 5, thorough 6)
+PAIRS_MAX_N = [4, 4]  # two-root checks: DAGs up to [0] nodes; up to [1] nodes over the alphabet {f; Sin, Div}
+
+
+def is_lean1(t):
+    return all(s[0] in ("f", "Sin", "Div") for s in subterms(t))
+
 
 
 def variants(t, n):
@@ -1293,13 +1274,8 @@ def check_variant(cx, t, n, sh, e, do_pairs):
     fully = len({id(o) for o in _walk_objs(e)}) == n
     # UFL's == re-points the operands of equal operator nodes to one tuple ("eager DAGify"), i.e. the
     # code under test mutates unshared inputs into shared ones: rebuild the object graph for every call
-    keep = []
-
     def mk():
-        if fully:
-            return e
-        keep.append(build(t, sh, {}))
-        return keep[-1]
+        return e if fully else build(t, sh, {})
 
     part_a(cx, mk, do_pairs)
     part_b_single(cx, mk, fully)
@@ -1333,7 +1309,9 @@ def dag_worker(items):
             shl = sorted(tstr(s) for s in sh)
             cx.case = {"part": "AB", "term": t, "n": n, "shared": sorted(sh, key=tstr), "key": f"{tstr(t)}|shared={','.join(shl)}"}
             # two-root checks on the maximally shared and the fully unshared object graph
-            do_pairs = mode in ("tree", "max-shared", "unshared") and n <= PAIRS_MAX_N[0]
+            do_pairs = mode in ("tree", "max-shared", "unshared") and (
+                n <= PAIRS_MAX_N[0] or (n <= PAIRS_MAX_N[1] and is_lean1(t))
+            )
             check_variant(cx, t, n, sh, e, do_pairs)
             if mode == "mixed":
                 part.sample({"term": tstr(t), "shared": shl, "tree_nodes": ntree, "objects": nobj, "distinct": n}, limit=1)
@@ -1554,6 +1532,7 @@ def replay(run):
         sh = frozenset(to_term(s) for s in w["shared"])
         e = build(t, sh, {})
         cx.case = {"part": "AB", "term": t, "n": w["n"], "shared": sorted(sh, key=tstr), "key": w["key"]}
+        part.inc("states")
         check_variant(cx, t, w["n"], sh, e, True)
     elif w["part"] == "C":
         table = tuple((n, k) for n, k in w["table"])
@@ -1572,7 +1551,7 @@ def main(argv):
     if run.args.replay:
         return replay(run)
     thorough = run.thorough()
-    PAIRS_MAX_N[0] = 6 if thorough else 5
+    PAIRS_MAX_N[:] = [5, 6] if thorough else [4, 4]
     FOUR_MODES_MAX_N[0] = 6 if thorough else 5
     # ---- DAGs
     seen = set()
@@ -1610,7 +1589,7 @@ def main(argv):
         "recipes": len(items),
         "sharing_modes": f"all subsets of repeated subterms for n<={SUBSET_MAX_N}; {{all shared, none, leaves only, operators only}} for n<={FOUR_MODES_MAX_N[0]}; {{all shared, none}} beyond",
         "traversal_cutoff_sets": "all subsets of the operator classes present in the DAG, plus {Coefficient}",
-        "two_root_checks": f"all ordered pairs of sub-DAGs of each DAG with <= {PAIRS_MAX_N[0]} nodes (tree / max-shared / unshared object graphs)",
+        "two_root_checks": f"all ordered pairs of sub-DAGs of each DAG with <= {PAIRS_MAX_N[0]} nodes (<= {PAIRS_MAX_N[1]} nodes over {{f; Sin, Div}}), on the tree / max-shared / unshared object graphs",
         "handler_families": "id, swap, leafrep(cut/post), zero, wrap, count, str, cut:{operator,math_function,condition}, op_only, manual, memoized, cut:every nonempty subset of present operator handler names",
         "dispatch_classes": len(ALL_CLASSES),
         "dispatch_tables_chain": nchain,
